@@ -301,6 +301,10 @@ func runC07(c *Ctx, r *Report) {
 	// ---- R8 ----
 	c.checkEnvDepthInvariant(r)
 
+	// ---- R11 ----
+	r.Rule("C07.R11", "interface equality: every == / != between two interface values of module types has, on one side, a boxed value of a deeply comparable concrete type (Boolean, Null, a pointer, Reference): Go panics when both sides hold the same uncomparable struct type")
+	c.checkInterfaceEquality(r, "C07.R11")
+
 	// shared C01.R7
 	r.Rule("C01.R7", "(shared) control objects are never stored as values (a control object in a container panics in Cmp)")
 	c.checkControlObjects(r, "C01.R7")
